@@ -81,10 +81,13 @@ def run(ck):
     C08.directive_add_rule(ck, Facts("release"), rid="C11.R17")
     # ... and the one option that changes what a value pattern *means* is honoured where the filter is built: with
     # `with_regex(false)` every directive's patterns are turned into literal matchers, for every directive
-    fd = F.body("tracing_subscriber::filter::env::builder::Builder::from_directives")
-    if ck.anchor("C11.R9", "Builder::from_directives", fd):
+    for fpath, fname in (("tracing_subscriber::filter::env::builder::Builder::from_directives", "Builder::from_directives"),
+                         ("tracing_subscriber::filter::env::EnvFilter::add_directive", "EnvFilter::add_directive")):
+        fd = F.body(fpath)
+        if not ck.anchor("C11.R9", fname, fd):
+            continue
         from rulekit.query import guards_of
-        key = "Builder::from_directives: with regex support off every directive is made literal (deregexify)"
+        key = "%s: with regex support off every directive is made literal (deregexify)" % fname
         sites = [(x, bb) for x in [fd] + F.closures_of(fd) for bb, t in x.calls() if t["callee"].get("method") == "deregexify"]
         ok = len(sites) == 1
         why = "%d deregexify calls" % len(sites)
@@ -284,6 +287,23 @@ def r3(ck, F):
                 scanned = any("field_names" in t and ("next(" in t or t.startswith("all(") or t.startswith("any(")) for t, v in cs)
                 if not known_empty and not scanned:
                     badp += 1
+            # ... with the right polarity: a name the event does not have rejects it, a name it has lets the scan go on
+            k3 = "StaticDirective: a missing field name rejects the event, a present one does not"
+            wrong = []
+            for pth in PathEval(b).run():
+                look = [(show(c[0]), c[1]) for c in pth.conds if "field(fields(arg2)" in show(c[0])]
+                if not look:
+                    continue
+                t, v = look[-1]
+                missing = (t.startswith("is_none(") and v != 0) or (t.startswith("is_some(") and v == 0) or (t.startswith("discr(") and v == 0)
+                if pth.end == "return" and show(pth.ret) == "0" and not missing:
+                    wrong.append("rejects after *finding* the field (%s = %s)" % (t[:50], v))
+                if missing and not (pth.end == "return" and show(pth.ret) == "0"):
+                    wrong.append("goes on (%s) after finding a field missing" % pth.end)
+            if wrong:
+                ck.bad("C11.R3", k3, where(b.raw["sp"]), "; ".join(sorted(set(wrong))) + ": `target[field]=level` then applies to exactly the events that lack the field", fn=b.path)
+            else:
+                ck.ok("C11.R3", k3, fn=b.path)
             if nacc and not badp:
                 ck.ok("C11.R3", k2, fn=b.path)
             else:
